@@ -15,7 +15,7 @@ func init() {
 		Decides: "(R28.1) every type that can generate its own hash (generateHash()/hash(), own or promoted) and has its own IsValid reports validity only after Hash() was compared equal with the regenerated hash, in that IsValid or in the embedded type's IsValid it succeeds through; " +
 			"(R28.2) every field of such a type (embedded parts through their own hash bytes) flows into the hash input, with tabled exemptions; every field of a sign (signer, signature, signed-at, node) is either part of the verified message or the verifying key/signature; " +
 			"(R28.3) BaseSign.Verify's message is network id ++ content ++ signed-at of that sign and BaseNodeSign.Verify prefixes the node; the signing constructors build the same message; IsValidSignFact verifies every sign over the fact hash under the caller's network id and rejects a fact that fails its own IsValid; " +
-			"(R28.4) kind separation: fact types that share one hash generator (the hint is not hashed) are listed as known finding.",
+			"(R28.4) kind separation: fact types that share one hash generator (the hint is not hashed) are listed as known finding. The expel facts of a ballot fact are left out of the hashed bytes only when there are none.",
 		NotDecided: "the signature scheme itself; ambiguity of the unframed concatenation networkID ++ content; which IsValid a caller runs on a decoded object (covered per consumer in C04/C09/C16).",
 		Run:        runC28,
 	})
@@ -39,6 +39,20 @@ func hashGen(t *types.Named) (*types.Func, []int) {
 }
 
 func runC28(c *Ctx) {
+	// the expel facts of a ballot fact are left out of the hashed bytes only when there are none
+	c.Rule("R28.1", "MustPass")
+	if parent := c.Need("isaac.(baseBallotFact).hashBytes"); parent != nil {
+		n := 0
+		for _, f := range WithClosures(parent) {
+			if f == parent {
+				continue
+			}
+			rs := c.ReturnsD(f, 0, "nil")
+			n += len(rs)
+			c.MP(f, "ballot fact hash: the expel facts are skipped only if there are none", rs, 0, GCmp("len(fact.expelfacts)", "<", "1"), GCmp("len(fact.expelfacts)", "==", "0"))
+		}
+		c.floors["R28.1 empty-expel exits of the ballot fact hash"] = [2]int{1, n}
+	}
 	// R28.1 --------------------------------------------------------------------------------------
 	c.Rule("R28.1", "MustPass")
 	var hashed []*types.Named
